@@ -24,6 +24,8 @@ pub fn run(args: &[String]) {
         Some("corpus") => corpus(args),
         Some("cases") => cases(),
         Some("bytes") => bytes(args),
+        Some("repro-ranged") => repro_ranged(),
+        Some("repro-aalt") => repro_aalt(),
         _ => {
             eprintln!("c17 gen|dump|oracle|corpus|cases|bytes");
             std::process::exit(2)
@@ -326,21 +328,81 @@ impl Gen {
         let mut chains = Vec::new();
         for _ in 0..n_chains {
             let n_sub = self.r.range(1, 4) as usize;
-            let n_feat = self.r.below(3) as usize;
+            // chain feature entries: (type, setting) pairs that user features can reach through the mapping
+            // table, with overlapping enable/disable masks so that the order of the updates matters
+            let n_feat = self.r.below(6) as usize;
             let features = (0..n_feat)
-                .map(|_| MorxFeature {
-                    feature_type: *self.r.pick(&[1u16, 3, 37, 17]),
-                    feature_setting: self.r.below(4) as u16,
-                    enable_flags: self.flags(),
-                    disable_flags: !self.flags(),
+                .map(|_| {
+                    let (feature_type, feature_setting) = if self.r.chance(1, 8) {
+                        (*self.r.pick(&[1u16, 3, 37, 17, 2]), self.r.below(6) as u16)
+                    } else {
+                        *self.r.pick(&CHAIN_FEATURES)
+                    };
+                    MorxFeature { feature_type, feature_setting, enable_flags: self.flags(), disable_flags: !self.flags() }
                 })
                 .collect();
             let default_flags = if self.r.chance(2, 3) { 1 | self.flags() } else { self.flags() };
             chains.push(MorxChain { default_flags, features, subtables: (0..n_sub).map(|_| self.subtable()).collect() });
         }
         s.morx = Some(Morx { version: if self.r.chance(1, 3) { 3 } else { 2 }, chains });
+        // feature name table: a random subset of the types the mapping table can produce
+        if self.r.chance(3, 5) {
+            let mut names = Vec::new();
+            for (ty, excl) in [(1u16, false), (3, true), (6, true), (17, true), (21, true), (35, false), (37, true), (38, true)] {
+                if self.r.chance(1, 2) {
+                    let n_set = if self.r.chance(1, 8) { 0 } else { self.r.range(1, 4) as usize };
+                    let settings: Vec<u16> = (0..n_set as u16).map(|k| if self.r.chance(1, 6) { k + 7 } else { k }).collect();
+                    // the exclusive bit usually follows Apple's registry, sometimes not
+                    let exclusive = if self.r.chance(1, 6) { !excl } else { excl };
+                    names.push(FeatName { feature: ty, settings, exclusive, default_index: if self.r.chance(1, 3) { Some(0) } else { None } });
+                }
+            }
+            s.feat = Some(Feat { names });
+        }
         s
     }
+}
+
+/// (AAT feature type, selector) pairs reachable from the OpenType tags of USER_TAGS
+const CHAIN_FEATURES: [(u16, u16); 28] = [
+    (1, 2), (1, 3), (37, 1), (3, 3), (3, 3), (37, 1),
+    (1, 2), (1, 3), (1, 4), (1, 5), (37, 1), (37, 0), (37, 2), (3, 3), (35, 2), (35, 3), (35, 4), (35, 5),
+    (17, 0), (17, 1), (17, 2), (6, 0), (6, 1), (6, 4), (21, 0), (21, 1), (21, 2), (38, 1),
+];
+/// liga dlig smcp pcap ss01 ss02 aalt tnum pnum onum lnum c2sc; kern and zzzz have no AAT mapping
+const USER_TAGS: [&str; 17] = ["smcp", "smcp", "liga", "liga", "dlig", "smcp", "pcap", "ss01", "ss02", "aalt", "tnum", "pnum", "onum", "lnum", "c2sc", "kern", "zzzz"];
+
+fn gen_features(r: &mut Rng, len: usize, has_feat: bool) -> Vec<String> {
+    let n = if has_feat {
+        match r.below(8) {
+            0 | 1 => 0,
+            2..=4 => 1,
+            5 | 6 => 2,
+            _ => 3,
+        }
+    } else if r.chance(1, 8) {
+        1
+    } else {
+        0
+    };
+    (0..n)
+        .map(|_| {
+            let tag = *r.pick(&USER_TAGS);
+            let value = if tag == "aalt" { if r.chance(1, 6) { *r.pick(&[65535u64, 65536, 70000, 4294967295]) } else { r.below(4) } } else if r.chance(1, 3) { 0 } else { 1 };
+            let range = if r.chance(1, 3) {
+                let a = r.below(len as u64 + 2);
+                let b = a + r.below(len as u64 + 2);
+                format!("[{}:{}]", a, b)
+            } else {
+                String::new()
+            };
+            match (value, r.below(3)) {
+                (0, 0) if range.is_empty() && tag != "aalt" => format!("-{}", tag),
+                (1, 0) if tag != "aalt" => format!("{}{}", tag, range),
+                (v, _) => format!("{}{}={}", tag, range, v),
+            }
+        })
+        .collect()
 }
 
 fn font_rng(seed: u64, stream: Stream, i: u64) -> Rng {
@@ -355,7 +417,7 @@ fn gen_font(seed: u64, stream: Stream, i: u64) -> (FontSpec, Rng) {
     (f, g.r)
 }
 
-fn gen_req(r: &mut Rng, ng: u16) -> Req {
+fn gen_req(r: &mut Rng, ng: u16, has_feat: bool) -> Req {
     let len = match r.below(10) {
         0 => 0,
         1 => 1,
@@ -395,8 +457,14 @@ fn gen_req(r: &mut Rng, ng: u16) -> Req {
         2..=5 => Direction::RightToLeft,
         _ => Direction::LeftToRight,
     };
-    let features = if r.chance(1, 10) { vec![r.pick(&["liga", "smcp", "-liga", "dlig=1", "kern=0"]).to_string()] } else { vec![] };
+    let features = gen_features(r, len, has_feat);
     Req { text, dir: Some(dir), level: r.below(3) as u8, features, ..Req::default() }
+}
+
+/// the user features as rustybuzz parsed them: tag:value:start:end (numbers)
+fn fmt_uf(req: &Req) -> String {
+    let v: Vec<String> = features_of(req).iter().map(|f| format!("{}:{}:{}:{}", f.tag.0, f.value, f.start, f.end)).collect();
+    if v.is_empty() { "-".to_string() } else { v.join(",") }
 }
 
 fn fmt_out(gs: &[G]) -> String {
@@ -470,9 +538,10 @@ fn gen(args: &[String]) {
         let bytes = build(&spec);
         if stream == Stream::Wf {
             println!("font {} {}", i, spec.coq());
+            println!("feat {} {}", i, match &spec.feat { Some(f) => format!("(Some {})", f.coq()), None => "None".to_string() });
         }
         for j in 0..texts {
-            let req = gen_req(&mut r, spec.num_glyphs);
+            let req = gen_req(&mut r, spec.num_glyphs, spec.feat.is_some());
             let res = match shape_guarded(&bytes, &req, limit_ms) {
                 Some(r) => r,
                 None => {
@@ -492,10 +561,20 @@ fn gen(args: &[String]) {
                         println!("generic-fail {} {} {} :: {} :: {}", i, j, why, fmt_req(&req), fmt_out(out));
                     }
                     if stream == Stream::Wf {
+                        // did the user features change the result?  (evidence only)
+                        if !req.features.is_empty() {
+                            let mut plain = req.clone();
+                            plain.features.clear();
+                            if let Some(Ok(o2)) = shape_guarded(&bytes, &plain, limit_ms) {
+                                if o2 != *out {
+                                    println!("fx {} {}", i, j);
+                                }
+                            }
+                        }
                         if out.len() > BIG {
-                            println!("case {} {} {} -> big {} {}", i, j, fmt_req(&req), out.len(), digest(out));
+                            println!("case {} {} {} uf={} -> big {} {}", i, j, fmt_req(&req), fmt_uf(&req), out.len(), digest(out));
                         } else {
-                            println!("case {} {} {} -> ok {}", i, j, fmt_req(&req), fmt_out(out));
+                            println!("case {} {} {} uf={} -> ok {}", i, j, fmt_req(&req), fmt_uf(&req), fmt_out(out));
                         }
                     }
                 }
@@ -503,7 +582,7 @@ fn gen(args: &[String]) {
                     bad += 1;
                     println!("generic-fail {} {} panic:{} :: {} :: -", i, j, c, fmt_req(&req));
                     if stream == Stream::Wf {
-                        println!("case {} {} {} -> panic {}", i, j, fmt_req(&req), c);
+                        println!("case {} {} {} uf={} -> panic {}", i, j, fmt_req(&req), fmt_uf(&req), c);
                     }
                 }
             }
@@ -531,6 +610,52 @@ fn dump(args: &[String]) {
     let (spec, _) = gen_font(seed, stream_of(args), i);
     println!("spec {:?}", spec);
     println!("coq {}", spec.coq());
+    println!("featcoq {}", match &spec.feat { Some(f) => format!("(Some {})", f.coq()), None => "None".to_string() });
+    println!("b64 {}", b64_encode(&build(&spec)));
+}
+
+/// the minimal font of the range-restricted non-contextual defect (fixed by b49677d): feat exposes
+/// lower case (37), one chain (default flags 0) whose entry (37, 1) enables flag 1, one non-contextual
+/// subtable (flags 1) mapping g -> g + 10 for g = 1..8
+fn repro_ranged() {
+    let mut spec = morx_font(
+        24,
+        vec![MorxChain {
+            default_flags: 0,
+            features: vec![MorxFeature { feature_type: 37, feature_setting: 1, enable_flags: 1, disable_flags: 0xFFFF_FFFF }],
+            subtables: vec![MorxSubtable {
+                coverage: 0,
+                sub_feature_flags: 1,
+                kind: MorxKind::NonContextual(AatLookup::new(6, (1..=8u16).map(|g| (g, g + 10)).collect())),
+            }],
+        }],
+    );
+    spec.feat = Some(Feat { names: vec![FeatName { feature: 37, settings: vec![0, 1], exclusive: true, default_index: None }] });
+    println!("spec {:?}", spec);
+    println!("b64 {}", b64_encode(&build(&spec)));
+}
+
+/// font for the `aalt=<value above 65535>` defect (fixed by 7c3bda2): feat exposes character alternatives
+/// (17); chain entries (17, 4464) -> flag 1 (4464 = 70000 mod 65536: a truncated selector would match) and
+/// (17, 2) -> flag 2; subtables: flag 1 maps 1 -> 11, flag 2 maps 2 -> 12
+fn repro_aalt() {
+    let map = |a: u16| MorxKind::NonContextual(AatLookup::new(6, vec![(a, a + 10)]));
+    let mut spec = morx_font(
+        24,
+        vec![MorxChain {
+            default_flags: 0,
+            features: vec![
+                MorxFeature { feature_type: 17, feature_setting: 4464, enable_flags: 1, disable_flags: 0xFFFF_FFFF },
+                MorxFeature { feature_type: 17, feature_setting: 2, enable_flags: 2, disable_flags: 0xFFFF_FFFF },
+            ],
+            subtables: vec![
+                MorxSubtable { coverage: 0, sub_feature_flags: 1, kind: map(1) },
+                MorxSubtable { coverage: 0, sub_feature_flags: 2, kind: map(2) },
+            ],
+        }],
+    );
+    spec.feat = Some(Feat { names: vec![FeatName { feature: 17, settings: vec![0, 1, 2], exclusive: true, default_index: None }] });
+    println!("spec {:?}", spec);
     println!("b64 {}", b64_encode(&build(&spec)));
 }
 
@@ -948,7 +1073,80 @@ fn oracle(args: &[String]) {
         }
     }
 
-    for t in [&t1, &t2, &t3, &t4, &t5, &t6] {
+    // (vi) chain flag compilation: default flags d, four entries in table order with random 3-bit
+    // enable/disable masks — ligatures on (1,2), ligatures off (1,3), lower-case small caps (37,1), the
+    // deprecated letter-case small caps (3,3) — three subtables gated by flags 1, 2, 4; feat exposes a
+    // random subset of {1, 37, 3}; the request switches liga and/or smcp on or off (global, no duplicates)
+    let mut t7 = Tally { name: "chain-flags", runs: 0, changed: 0, fails: 0 };
+    for _ in 0..n {
+        let ng = 24u16;
+        let d = r.below(8) as u32;
+        let keys: [(u16, u16); 4] = [(1, 2), (1, 3), (37, 1), (3, 3)];
+        let mut order: Vec<usize> = vec![0, 1, 2, 3];
+        for i in (1..4).rev() {
+            order.swap(i, r.below(i as u64 + 1) as usize);
+        }
+        let entries: Vec<MorxFeature> = order
+            .iter()
+            .map(|k| MorxFeature { feature_type: keys[*k].0, feature_setting: keys[*k].1, enable_flags: r.below(8) as u32, disable_flags: !(r.below(8) as u32) })
+            .collect();
+        let map = |a: u16| MorxKind::NonContextual(AatLookup::new(6, vec![(a, a + 10)]));
+        let subtables = vec![
+            MorxSubtable { coverage: 0, sub_feature_flags: 1, kind: map(1) },
+            MorxSubtable { coverage: 0, sub_feature_flags: 2, kind: map(2) },
+            MorxSubtable { coverage: 0, sub_feature_flags: 4, kind: map(3) },
+        ];
+        let mut spec = morx_font(ng, vec![MorxChain { default_flags: d, features: entries.clone(), subtables }]);
+        let (f1, f37, f3) = (r.chance(2, 3), r.chance(1, 2), r.chance(1, 2));
+        let mut names = Vec::new();
+        if f1 {
+            names.push(FeatName { feature: 1, settings: vec![2, 3], exclusive: false, default_index: None });
+        }
+        if f3 {
+            names.push(FeatName { feature: 3, settings: vec![0, 3], exclusive: true, default_index: None });
+        }
+        if f37 {
+            names.push(FeatName { feature: 37, settings: vec![0, 1], exclusive: true, default_index: None });
+        }
+        let has_feat = r.chance(7, 8);
+        if has_feat {
+            spec.feat = Some(Feat { names });
+        }
+        for _ in 0..4 {
+            let liga: Option<bool> = match r.below(3) { 0 => None, 1 => Some(true), _ => Some(false) };
+            let smcp: Option<bool> = match r.below(3) { 0 => None, 1 => Some(true), _ => Some(false) };
+            let mut feats = Vec::new();
+            if let Some(v) = smcp {
+                feats.push(if v { "smcp".to_string() } else { "smcp=0".to_string() });
+            }
+            if let Some(v) = liga {
+                feats.push(if v { "liga".to_string() } else { "-liga".to_string() });
+            }
+            // the active (type, setting) pairs, by the rules of add_feature
+            let mut active: Vec<(u16, u16)> = Vec::new();
+            if has_feat {
+                if let (Some(v), true) = (liga, f1) {
+                    active.push((1, if v { 2 } else { 3 }));
+                }
+                if let (Some(v), true) = (smcp, f37 || f3) {
+                    active.push((37, if v { 1 } else { 0 }));
+                }
+            }
+            let mut flags = d;
+            for e in &entries {
+                let key = (e.feature_type, e.feature_setting);
+                if active.contains(&key) || (key == (3, 3) && active.contains(&(37, 1))) {
+                    flags = (flags & e.disable_flags) | e.enable_flags;
+                }
+            }
+            let want: Vec<u32> = (1..=3u32).map(|g| if flags & (1 << (g - 1)) != 0 { g + 10 } else { g }).collect();
+            let mut req = req_of(&[1, 2, 3], Direction::LeftToRight, 0);
+            req.features = feats;
+            report(&mut t7, &spec, &req, &want, None);
+        }
+    }
+
+    for t in [&t1, &t2, &t3, &t4, &t5, &t6, &t7] {
         println!("oracle-summary {} runs={} changed={} fails={}", t.name, t.runs, t.changed, t.fails);
     }
 }
